@@ -426,9 +426,8 @@ type tamper struct {
 	trunc  int   // >0: truncate body
 	hdr    int   // >=0: header bit flip
 	cut    int   // >=0: forward that many bytes then close
-	dupBit []int
+	after  []int // what follows the frame, in op order: -1 = verbatim replay, ≥0 = duplicate with that bit flipped
 	inject [][2]int
-	replay int
 }
 
 type proxy struct {
@@ -525,14 +524,13 @@ func (p *proxy) pump(a, b net.Conn) {
 			return
 		}
 		b.Write(wire)
-		for _, bit := range t.dupBit {
+		for _, bit := range t.after {
 			d := append([]byte(nil), orig...)
-			pos := bit % (len(d) * 8)
-			d[pos/8] ^= 1 << uint(pos%8)
+			if bit >= 0 {
+				pos := bit % (len(d) * 8)
+				d[pos/8] ^= 1 << uint(pos%8)
+			}
 			b.Write(frame(d))
-		}
-		for i := 0; i < t.replay; i++ {
-			b.Write(frame(orig))
 		}
 		if idx < len(p.seen) {
 			p.once[idx].Do(func() { close(p.seen[idx]) })
@@ -581,13 +579,13 @@ func execMitm(msgsS, opsS string) (res h.Result) {
 				terminalAt = i
 			}
 		case 'D':
-			t.dupBit = append(t.dupBit, h.Atoi(a[1]))
+			t.after = append(t.after, h.Atoi(a[1]))
 			errInducing++
 		case 'I':
 			t.inject = append(t.inject, [2]int{h.Atoi(a[1]), h.Atoi(a[2])})
 			errInducing++
 		case 'R':
-			t.replay++
+			t.after = append(t.after, -1)
 		default:
 			panic("bad op " + op)
 		}
@@ -836,7 +834,7 @@ func gen(tier string, rng *h.Rng, emit func(string)) {
 	emit("mitm 2:1048000:9 -")
 	// one tampering op at a time, every kind, position anywhere
 	kinds := "FTDIHXR"
-	n1 := 70
+	n1 := 60
 	if thorough {
 		n1 = 500
 	}
